@@ -417,11 +417,32 @@ type echoBehaviour struct {
 	limit   atomic.Int64
 	sawEOF  chan struct{}
 	handled atomic.Int64
+	// stream: the service ignores what it receives and keeps sending until a
+	// write fails (a streaming service); writeFailed reports that
+	stream      atomic.Bool
+	writeFailed chan struct{}
 }
 
 func (e *echoBehaviour) serve(c net.Conn) {
 	defer c.Close()
 	e.handled.Add(1)
+	if e.stream.Load() {
+		chunk := bytes.Repeat([]byte("stream--"), 512)
+		for {
+			_ = c.SetWriteDeadline(time.Now().Add(60 * time.Second))
+			if _, err := c.Write(chunk); err != nil {
+				var ne net.Error
+				if !(errors.As(err, &ne) && ne.Timeout()) {
+					select {
+					case e.writeFailed <- struct{}{}:
+					default:
+					}
+				}
+				return
+			}
+			time.Sleep(time.Millisecond)
+		}
+	}
 	limit := e.limit.Load()
 	var n int64
 	buf := make([]byte, 32*1024)
@@ -480,7 +501,7 @@ func newTunnelWorldTLS(tlsDir string) *tunnelWorld {
 	if err != nil {
 		evid.Fatal("cluster: %v", err)
 	}
-	w := &tunnelWorld{tls: clientTLS, nodes: nodes, echo: &echoBehaviour{sawEOF: make(chan struct{}, 8)}}
+	w := &tunnelWorld{tls: clientTLS, nodes: nodes, echo: &echoBehaviour{sawEOF: make(chan struct{}, 8), writeFailed: make(chan struct{}, 8)}}
 	w.echo.limit.Store(-1)
 	// t1: yamux session held by the harness on node 1
 	raw, err := dialRawWith(nodes[1].UpstreamAddr(), "t1", "raw", "", w.echo.serve)
@@ -572,11 +593,31 @@ func (w *tunnelWorld) run(c tunnelCase) (sig, msg string) {
 		limit = int64(c.Size)
 	}
 	w.echo.limit.Store(limit)
+	w.echo.stream.Store(c.Closer == "client-while-upstream-streams")
+	defer w.echo.stream.Store(false)
 	conn, err := w.open(c.Path)
 	if err != nil {
 		return "tunnel-open-failed", desc + ": " + err.Error()
 	}
 	defer conn.Close()
+	if c.Closer == "client-while-upstream-streams" {
+		// the service only sends; the client takes some of it and closes: the
+		// service's next writes must fail (the tunnel has no half-close)
+		for len(w.echo.writeFailed) > 0 {
+			<-w.echo.writeFailed
+		}
+		_ = conn.SetDeadline(time.Now().Add(30 * time.Second))
+		if _, err := io.ReadFull(conn, make([]byte, c.Size)); err != nil {
+			return "tunnel-bytes-differ", fmt.Sprintf("%s: reading %d streamed bytes: %v", desc, c.Size, err)
+		}
+		conn.Close()
+		select {
+		case <-w.echo.writeFailed:
+		case <-time.After(25 * time.Second):
+			return "close-not-propagated-to-upstream", desc + ": 25s after the client closed the tunnel the streaming upstream service can still write into it"
+		}
+		return "", ""
+	}
 	_ = conn.SetDeadline(time.Now().Add(60 * time.Second))
 	payload := make([]byte, c.Size)
 	for i := range payload {
@@ -765,7 +806,7 @@ func init() {
 		}
 		w := newTunnelWorld()
 		wt := newTunnelWorldTLS(tlsDir)
-		sizes := []int{1, 3, 65537, 300 * 1024}
+		sizes := []int{1, 3, 65537, 300 * 1024, 600 * 1024}
 		tn := 0
 		for _, p := range tunnelPaths {
 			// the TLS cluster: the same paths, two sizes
@@ -778,6 +819,24 @@ func init() {
 					sig, msg := wt.run(c)
 					if sig == "tunnel-open-failed" {
 						sig, msg = wt.run(c)
+					}
+					tn++
+					if sig != "" {
+						run.Violation("C07", sig, msg, map[string]any{"engine": "E4-C07", "case": c})
+					}
+				}
+			}
+			// a service that only sends; the client closes first. Only where piko
+			// itself owns the connection to the service (agent TCP proxy, client
+			// forwarder): there the close must release that leg whatever the service
+			// does. A service that is the yamux end itself sees end-of-stream when
+			// it reads and decides for itself when to close.
+			if p == "agent-tcpproxy" || p == "client-forwarder" {
+				c := tunnelCase{Path: p, Size: 65537, Closer: "client-while-upstream-streams"}
+				if run.Violations() < 3 {
+					sig, msg := w.run(c)
+					if sig == "tunnel-open-failed" {
+						sig, msg = w.run(c)
 					}
 					tn++
 					if sig != "" {
@@ -819,7 +878,7 @@ func init() {
 		fmt.Printf("  C07 tunnels: cases=%d\n", tn)
 		run.Set("evaluations", evals+tn)
 		run.Set("distinct_nontrivial", nontrivial+tn)
-		run.Set("rule", "adapter: payload of n distinct bytes x every composition into messages x every placement of up to two empty messages x 8 read-buffer patterns x transport read limits {1,2,5,unlimited}, directions alternating on one connection, plus text message / ping / close frame / abrupt end; non-trivial = more than one message, an empty message or a fragmenting transport. tunnels: 5 paths (dialer local, dialer forwarded, forward proxy, agent TCP proxy, client forwarder) x sizes {1,3,64KiB+1,300KiB} x empty write between x closer {client, upstream}; the same paths on a cluster whose proxy ports and node-to-node forwarding use TLS x sizes {3,64KiB+1} x closer; one long-lived tunnel per path on a plaintext and a TLS cluster, used every 400ms for 6.5s")
+		run.Set("rule", "adapter: payload of n distinct bytes x every composition into messages x every placement of up to two empty messages x 8 read-buffer patterns x transport read limits {1,2,5,unlimited}, directions alternating on one connection, plus text message / ping / close frame / abrupt end; non-trivial = more than one message, an empty message or a fragmenting transport. tunnels: 5 paths (dialer local, dialer forwarded, forward proxy, agent TCP proxy, client forwarder) x sizes {1,3,64KiB+1,300KiB,600KiB (two single writes of 300KiB)} x empty write between x closer {client, upstream}, plus (agent TCP proxy, client forwarder) a send-only local service whose tunnel the client closes: the leg to the service is released; the same paths on a cluster whose proxy ports and node-to-node forwarding use TLS x sizes {3,64KiB+1} x closer; one long-lived tunnel per path on a plaintext and a TLS cluster, used every 400ms for 6.5s")
 		run.Set("exhaustive", true)
 		run.Assume("tunnel half: goroutine schedules inside yamux/gorilla/net are free-running")
 		return run.Finish()
